@@ -159,11 +159,23 @@ class Grammar:
         self.bodies = {}
         self.unknown = {}
         self.direct_calls = {}   # parser -> [names of parsers called as X::parse(input) directly]
+        import mirlib
+
+        def is_builder(callee):
+            """a local function that is not itself a parser `fn(&str) -> IResult<..>` but builds / applies combinators for
+            its callers (e.g. a generic shared by several `impl Parser`): read through it"""
+            if callee.crate != 'pilota_thrift_parser' or callee.kind != 'Fn' or '::tests::' in callee.key:
+                return False
+            ret = callee.locals[0]['ty'] if callee.locals else ''
+            return callee.argc != 1 or not ret.startswith('std::result::Result')
         for b in prog.bodies.values():
             if b.crate != 'pilota_thrift_parser' or b.kind not in ('Fn', 'AssocFn'):
                 continue
             if '::tests::' in b.key or '::test::' in b.key or b.name.startswith('test'):
                 continue
+            if is_builder(b):
+                continue
+            b = mirlib.inline_calls(b, lambda cs, callee: is_builder(callee))
             name = None
             if b.name == 'parse' and (b.impl_trait or '').endswith('Parser'):
                 name = _fname(b.impl_self)
